@@ -26,6 +26,7 @@ package encoding
 //@   ensures prefix: forall j int :: 0 <= j && j < old(len(*b)) ==> (*b)[j] == old((*b)[j])
 //@   ensures (*b)[old(len(*b))] == f.byte
 //@   ensures alias: arr(*b) == old(arr(*b)) || fresh(arr(*b))
+//@   ensures kept: PrefixKept(b)
 //@   modifies *b, arr(*b)
 
 //@ func DecodeFlag
@@ -62,6 +63,7 @@ package encoding
 //@   ensures byte7: UvarLen(v) > 7 ==> (*b)[old(len(*b)) + 7] == UvarByte(v, 7)
 //@   ensures byte8: UvarLen(v) > 8 ==> (*b)[old(len(*b)) + 8] == UvarByte(v, 8)
 //@   ensures alias: arr(*b) == old(arr(*b)) || fresh(arr(*b))
+//@   ensures kept: PrefixKept(b)
 //@   modifies *b, arr(*b)
 //@   loop 1 unroll 8
 
@@ -140,6 +142,7 @@ package encoding
 //@   ensures byte7: UvarLen(ZigZag(v)) > 7 ==> (*b)[old(len(*b)) + 7] == UvarByte(ZigZag(v), 7)
 //@   ensures byte8: UvarLen(ZigZag(v)) > 8 ==> (*b)[old(len(*b)) + 8] == UvarByte(ZigZag(v), 8)
 //@   ensures alias: arr(*b) == old(arr(*b)) || fresh(arr(*b))
+//@   ensures kept: PrefixKept(b)
 //@   modifies *b, arr(*b)
 //@ func DecodeVarint64
 //@   serves C18 C08 C07
@@ -177,6 +180,7 @@ package encoding
 //@   ensures byte6: (*b)[old(len(*b)) + 6] == byte(f64bits(v) >> 48)
 //@   ensures byte7: (*b)[old(len(*b)) + 7] == byte(f64bits(v) >> 56)
 //@   ensures alias: arr(*b) == old(arr(*b)) || fresh(arr(*b))
+//@   ensures kept: PrefixKept(b)
 //@   modifies *b, arr(*b)
 //@ fun LE64(s []byte) uint64 := uint64(s[0]) | uint64(s[1]) << 8 | uint64(s[2]) << 16 | uint64(s[3]) << 24 | uint64(s[4]) << 32 | uint64(s[5]) << 40 | uint64(s[6]) << 48 | uint64(s[7]) << 56
 //@ func DecodeFloat64LE
@@ -224,6 +228,7 @@ package encoding
 //@   ensures byte7: VfLen(VfX(v)) > 7 ==> (*b)[old(len(*b)) + 7] == VfByte(VfX(v), 7)
 //@   ensures byte8: VfLen(VfX(v)) > 8 ==> (*b)[old(len(*b)) + 8] == VfByte(VfX(v), 8)
 //@   ensures alias: arr(*b) == old(arr(*b)) || fresh(arr(*b))
+//@   ensures kept: PrefixKept(b)
 //@   modifies *b, arr(*b)
 //@   loop 1 unroll 8
 //@ func DecodeVarfloat64
@@ -285,3 +290,7 @@ package encoding
 //@   serves C18 C06
 //@   ensures result == VfLen(VfX(v))
 
+
+// ---------------------------------------------------------------- append-only view for callers in other packages
+// Encoders only append: the bytes already in the caller's buffer stay, the buffer never shrinks.
+//@ pred PrefixKept(b *[]byte) := len(*b) >= old(len(*b)) && off(*b) == old(off(*b)) && (arr(*b) == old(arr(*b)) || fresh(arr(*b))) && (forall p int :: old(off(*b)) <= p && p < old(off(*b) + len(*b)) ==> select(contents(*b), p) == select(old(contents(*b)), p))
